@@ -8,6 +8,7 @@ Obligation (d): the overflow check of `parse_u64_digits` never fires: invariant 
 namespace LexVerif.Proof.PNDebug
 open LexVerif LexVerif.Model
 open LexVerif.Props.C12 (Bytes.Valid incCount_spec)
+open LexVerif.Proof.PNTotal (Adv csum step_adv)
 
 variable {c : Cfg}
 
@@ -111,10 +112,10 @@ theorem parse8Loop_safe (cx : Ctx c) (k : Comp) (hcm : canMultidigit c k = true)
     unfold parse8Loop
     rcases tryParse8_spec cx k hcm b hb with h | ⟨x, h, h8, _, hdr⟩
     · simp only [h, bind, Except.bind]
-      exact ⟨Adv.refl hb, DigRange.refl _ _ _⟩
+      exact ⟨adv_refl hb, DigRange.refl _ _ _⟩
     · simp only [h, bind, Except.bind]
-      have hadv : Adv b { b with index := b.index + 8 } := ⟨rfl, by simp, by unfold Bytes.Valid; simpa using h8⟩
-      refine (ih { b with index := b.index + 8 } _ hadv.2.2 (by simp only; omega)).mono ?_
+      have hadv : Adv b { b with index := b.index + 8 } := step_adv b 8 h8
+      refine (ih { b with index := b.index + 8 } _ hadv.valid' (by simp only; omega)).mono ?_
       intro r ⟨ha, hd⟩
       exact ⟨hadv.trans ha, hdr.trans hd⟩
 
@@ -122,14 +123,14 @@ theorem parse8Digits_safe (cx : Ctx c) (k : Comp) (b : Bytes) (m : Nat) (hb : By
     Safe (parse8Digits c k b m) (fun r => Adv b r.2 ∧ DigRange c.mantissaRadix b.slc b.index r.2.index) := by
   unfold parse8Digits
   split
-  · exact ⟨Adv.refl hb, DigRange.refl _ _ _⟩
+  · exact ⟨adv_refl hb, DigRange.refl _ _ _⟩
   · split
     · next hcm =>
       have hr10 := cx.multi k hcm
       have h1 : decide (c.mantissaRadix ≥ 16) = false := by simp; omega
       simp only [h1, Bool.and_false, Bool.false_eq_true, if_false]
       exact parse8Loop_safe cx k hcm _ b m hb (by omega)
-    · exact ⟨Adv.refl hb, DigRange.refl _ _ _⟩
+    · exact ⟨adv_refl hb, DigRange.refl _ _ _⟩
 
 theorem u64Loop8_safe (cx : Ctx c) (k : Comp) (hcm : canMultidigit c k = true) :
     ∀ (fuel : Nat) (b : Bytes) (m step : Nat), Bytes.Valid b → b.slc.length - b.index < fuel → MInv c m step →
@@ -145,9 +146,9 @@ theorem u64Loop8_safe (cx : Ctx c) (k : Comp) (hcm : canMultidigit c k = true) :
     · next hs8 =>
       rcases tryParse8_spec cx k hcm b hb with h | ⟨x, h, h8, hx, _⟩
       · simp only [h, bind, Except.bind]
-        exact ⟨Adv.refl hb, hinv, by simp⟩
+        exact ⟨adv_refl hb, hinv, by simp⟩
       · simp only [h, bind, Except.bind]
-        have hadv : Adv b { b with index := b.index + 8 } := ⟨rfl, by simp, by unfold Bytes.Valid; simpa using h8⟩
+        have hadv : Adv b { b with index := b.index + 8 } := step_adv b 8 h8
         have hr10 := cx.multi k hcm
         have hr8 : radix8 c.mantissaRadix = c.mantissaRadix ^ 8 := radix8_eq ⟨c.mantissaRadix, by omega⟩
         have hlt : m * c.mantissaRadix ^ 8 + x
@@ -164,15 +165,15 @@ theorem u64Loop8_safe (cx : Ctx c) (k : Comp) (hcm : canMultidigit c k = true) :
         have hmod : (m * radix8 c.mantissaRadix + x) % pow2_64 = m * c.mantissaRadix ^ 8 + x := by
           rw [hr8]; exact Nat.mod_eq_of_lt (hinv2.lt_pow2 cx)
         rw [hmod]
-        refine (ih { b with index := b.index + 8 } _ _ hadv.2.2 (by simp only; omega) hinv2).mono ?_
+        refine (ih { b with index := b.index + 8 } _ _ hadv.valid' (by simp only; omega) hinv2).mono ?_
         intro r ⟨ha, hi, hcnt⟩
         refine ⟨hadv.trans ha, hi, ?_⟩
-        have := ha.2.1
+        have := ha.mono
         simp only at this hcnt
         omega
-    · exact ⟨Adv.refl hb, hinv, by simp⟩
+    · exact ⟨adv_refl hb, hinv, by simp⟩
 
-theorem u64Loop1_safe (cx : Ctx c) (k : Comp) :
+theorem u64Loop1_safe (cx : Ctx c) (k : Comp) (ht : PeekTriv c k) :
     ∀ (fuel : Nat) (b : Bytes) (m step : Nat), Bytes.Valid b → b.slc.length - b.index < fuel → MInv c m step →
       DigRange c.mantissaRadix b.slc b.index b.slc.length →
       Safe (u64Loop1 c k fuel b m step) (fun r => Adv b r.1 ∧ MInv c r.2.1 r.2.2 ∧
@@ -183,7 +184,7 @@ theorem u64Loop1_safe (cx : Ctx c) (k : Comp) :
   | succ n ih =>
     intro b m step hb hf hinv hdig
     unfold u64Loop1
-    simp only [cx.peekEq, bind, Except.bind]
+    simp only [ht b, bind, Except.bind]
     cases hx : b.slc[b.index]? with
     | none =>
       have : b.slc.length ≤ b.index := by
@@ -191,7 +192,7 @@ theorem u64Loop1_safe (cx : Ctx c) (k : Comp) :
         · simp [h] at hx
         · exact h
       have hv : b.index ≤ b.slc.length := hb
-      exact ⟨Adv.refl hb, hinv, by simp, Or.inr (by simp only; omega)⟩
+      exact ⟨adv_refl hb, hinv, by simp, Or.inr (by simp only; omega)⟩
     | some ch =>
       simp only
       have hlt := get_lt hx
@@ -212,13 +213,11 @@ theorem u64Loop1_safe (cx : Ctx c) (k : Comp) :
         have h1 : decide (m * c.mantissaRadix + charToValidDigit ch c.mantissaRadix ≥ pow2_64) = false := by
           simp; omega
         simp only [h1, Bool.and_false, Bool.false_eq_true, if_false]
-        have hch : ch ≠ 0 := by
-          intro h0; subst h0; exact not_isDig_zero cx.r36 hyd
-        rw [iterStep_ok cx k b hlt (by rw [hx]; simp; exact hch)]
+        rw [iterStep_ok k b hlt (Or.inr (ne_sep_of_dig cx.sepNotDigM hx hyd))]
         simp only
         rw [Nat.mod_eq_of_lt hlt64]
         have hi := incCount_spec c k { b with index := b.index + 1 }
-        have hadv : Adv b (Bytes.incCount c k { b with index := b.index + 1 }) := adv_inc k (adv_step hlt)
+        have hadv : Adv b (Bytes.incCount c k { b with index := b.index + 1 }) := adv_step_inc k (adv_refl hb) hlt
         have hf2 : (Bytes.incCount c k { b with index := b.index + 1 }).slc.length
             - (Bytes.incCount c k { b with index := b.index + 1 }).index < n := by
           rw [hi.1, hi.2]; simp only; omega
@@ -228,19 +227,19 @@ theorem u64Loop1_safe (cx : Ctx c) (k : Comp) :
           rw [hi.1, hi.2]
           intro j h1 h2
           exact hdig j (by simp only at h1; omega) h2
-        refine (ih _ _ _ hadv.2.2 hf2 hinv2 hdig2).mono ?_
+        refine (ih _ _ _ hadv.valid' hf2 hinv2 hdig2).mono ?_
         intro r ⟨ha, hi2, hcnt, hend⟩
         rw [hi.1] at hend
         rw [hi.2] at hcnt
         refine ⟨hadv.trans ha, hi2, ?_, hend⟩
-        have := ha.2.1
+        have := ha.mono
         rw [hi.2] at this
         simp only at this hcnt
         omega
       · next hs =>
-        exact ⟨Adv.refl hb, hinv, by simp, Or.inl (by simp only; omega)⟩
+        exact ⟨adv_refl hb, hinv, by simp, Or.inl (by simp only; omega)⟩
 
-theorem parseU64Digits_safe (cx : Ctx c) (k : Comp) (b : Bytes) (m step : Nat) (hb : Bytes.Valid b)
+theorem parseU64Digits_safe (cx : Ctx c) (k : Comp) (ht : PeekTriv c k) (b : Bytes) (m step : Nat) (hb : Bytes.Valid b)
     (hinv : MInv c m step) (hdig : DigRange c.mantissaRadix b.slc b.index b.slc.length) :
     Safe (parseU64Digits c k b m step) (fun r => Adv b r.1 ∧ MInv c r.2.1 r.2.2 ∧
       r.2.2 + (r.1.index - b.index) = step ∧ (r.2.2 = 0 ∨ r.1.index = b.slc.length)) := by
@@ -250,13 +249,13 @@ theorem parseU64Digits_safe (cx : Ctx c) (k : Comp) (b : Bytes) (m step : Nat) (
         r.2.2 + (r.1.index - b.index) = step ∧ (r.2.2 = 0 ∨ r.1.index = b.slc.length)) := by
     intro b1 m1 step1 ha hi hcnt
     have hdig1 : DigRange c.mantissaRadix b1.slc b1.index b1.slc.length := by
-      rw [ha.1]; intro j h1 h2; exact hdig j (by have := ha.2.1; omega) h2
-    refine (u64Loop1_safe cx k _ b1 m1 step1 ha.2.2 (by omega) hi hdig1).mono ?_
+      rw [ha.slc]; intro j h1 h2; exact hdig j (by have := ha.mono; omega) h2
+    refine (u64Loop1_safe cx k ht _ b1 m1 step1 ha.valid' (by omega) hi hdig1).mono ?_
     intro r ⟨ha2, hi2, hc2, hend⟩
-    rw [ha.1] at hend
+    rw [ha.slc] at hend
     refine ⟨ha.trans ha2, hi2, ?_, hend⟩
-    have := ha.2.1
-    have := ha2.2.1
+    have := ha.mono
+    have := ha2.mono
     omega
   split
   · next hcond =>
@@ -268,6 +267,6 @@ theorem parseU64Digits_safe (cx : Ctx c) (k : Comp) (b : Bytes) (m step : Nat) (
     rintro ⟨b1, m1, step1⟩ ⟨ha, hi, hcnt⟩
     exact key b1 m1 step1 ha hi hcnt
   · simp only [pure, Except.pure, bind, Except.bind]
-    exact key b m step (Adv.refl hb) hinv (by simp)
+    exact key b m step (adv_refl hb) hinv (by simp)
 
 end LexVerif.Proof.PNDebug
